@@ -38,7 +38,8 @@ RULE = ("cases = (operation, input kind, element profile, input elements, varian
         "max/min may return any of several ==-equal extremal elements.  Left out as undocumented corners: window 0, "
         "group 0, negative counts, take/drop n on non-ASCII strings (byte slicing, C10), the value forms of find/"
         "locate on strings (byte offset), ++ on strings or mixed kinds, cross-type sort, join of non-int/non-string "
-        "elements (Display format), stream(seq) wrappers (C11 finding), the kind of `xs ** n` for non-lists "
+        "elements (Display format), count(xs, value), sum/product(xs, f) and the return value of each (documented nowhere), "
+        "stream(seq) wrappers (C11 finding), the kind of `xs ** n` for non-lists "
         "(compared element-wise), group_all without function / with a binary relation (BUILTINS.md says relation, the "
         "implementation takes a key function: key functions are used).")
 ASSUMPTIONS = [
@@ -48,8 +49,8 @@ ASSUMPTIONS = [
     "rationals equal to an int or float are kept out of hash-based operations (unique, frequencies, group_all, dict keys): that defect belongs to C09",
     "fuel/depth/timeout/crash/panic outcomes are inconclusive here (C14 judges them)",
 ]
-PLAN = {"quick": {"random": 52000}, "thorough": {"random": 960000}}
-REG = dict(level="exploration", min_nontrivial=12000, min_nontrivial_thorough=100000,
+PLAN = {"quick": {"random": 30000}, "thorough": {"random": 960000}}
+REG = dict(level="exploration", min_nontrivial=10000, min_nontrivial_thorough=100000,
            technique="runtime reference-model monitor: one-line Python definitions of ~70 sequence operations vs the real interpreter's structural result, fixed grid + seeded sweeps over input kind x profile x length 0..8 x parameter/function variants",
            claim="Every executed call returned the value (and sequence kind) the documented one-line definition gives, or raised where the definition has no value; sort/sort_on stability, unique first occurrences, kind preservation and the enumeration order of permutations/combinations/subsequences/^^/** are compared exactly. Exploration over small inputs, not a proof.",
            note="Trusts the Python reference definitions and the harness's structural value dump; dict iteration order is never assumed; undocumented corners listed in the rule are not asserted.")
@@ -236,13 +237,6 @@ MAPF = {
               ("(\\x -> x == null)", lambda x: _b(x is None))],
 }
 MAPF["seqs"] = [("id", lambda x: x), ("len", len), ("(\\x -> [x])", lambda x: [x])]
-NUMF = {   # number-valued, for sum/product with a mapping function
-    "int": [("(+ 1)", lambda x: x + 1), ("(* 2)", lambda x: x * 2), ("(\\x -> x % 3)", lambda x: trem(x, 3)),
-            ("(\\x -> x * x)", lambda x: x * x), ("even", lambda x: _b(x % 2 == 0)), ("id", lambda x: x)],
-    "num": [("(* 2)", lambda x: x * 2), ("(> 1)", lambda x: _b(x > 1)), ("id", lambda x: x)],
-    "str": [("(== \"a\")", lambda x: _b(x == "a")), ("(\\x -> 2)", lambda x: 2)],
-    "lst": [("len", len), ("sum", sum)],
-}
 SEQF = {   # sequence-valued, for flat_map
     "int": [("(\\x -> [x, x])", lambda x: [x, x]), ("(\\x -> [])", lambda x: []), ("(\\x -> 1 to x)", lambda x: list(range(1, x + 1))),
             ("(\\x -> [x] ** 2)", lambda x: [x, x]), ("(\\x -> str(x))", lambda x: list(str(x))), ("(\\x -> V(x, 1))", lambda x: [x, 1])],
@@ -296,7 +290,7 @@ SEEDV = {"int": 10, "byte": 10, "num": 2.5, "numf": 2.5, "numq": Fr(1, 3), "str"
          "mixed": None, "seqs": [9]}
 ORDERED = ("int", "byte", "num", "numf", "numq", "str", "chr", "lst")     # profiles with a total order on their pool
 ARITH = ("int", "byte", "numf", "numq")
-HASHSAFE = ("int", "byte", "num", "numf", "str", "chr", "txt", "lst", "mixed")  # no rational == int/float pairs ("numq" has 1/2 only vs ints: safe too)
+HASHSAFE = ("int", "byte", "num", "numf", "numq", "str", "chr", "lst", "mixed")  # no rational == int/float pairs ("numq" has 1/2 only vs ints: safe too)
 
 
 def fam(table, prof):
@@ -387,11 +381,12 @@ def _flatten(c):
     yield "flatten(%s)" % c.S, (lambda: V([y for x in c.xs for y in (list(x) if not isinstance(x, str) else list(x))])), ""
 
 
-@op("each", profs=NOSEQS, dict_mode="ms_each")
+@op("each", profs=NOSEQS, dict_mode="ms1")
 def _each(c):
     for fs, f in fam(MAPF, c.prof)[:4]:
-        yield ("(acc := []; [%s, acc])" % c.call("each", c.S, "(\\e -> (acc +.= %s(e)))" % fs),
-               (lambda f=f: V([None, [f(x) for x in c.xs]])), "")
+        # the return value of `each` is not documented: only the calls (argument and order) are observed
+        yield ("(acc := []; %s; acc)" % c.call("each", c.S, "(\\e -> (acc +.= %s(e)))" % fs),
+               (lambda f=f: V([f(x) for x in c.xs])), "")
 
 
 @op("count", profs=GENERAL, dict_mode="exact")
@@ -399,8 +394,6 @@ def _count(c):
     yield "count(%s)" % c.S, (lambda: V(sum(1 for x in c.xs if truthy(x)))), "truthy"
     for fs, f in fam(PRED, c.prof):
         yield c.call("count", c.S, fs), (lambda f=f: V(sum(1 for x in c.xs if truthy(f(x))))), ""
-    for v in (c.xs[:1] + c.ys[:1]):
-        yield c.call("count", c.S, src(v)), (lambda v=v: V(sum(1 for x in c.xs if eq(x, v)))), "value"
 
 
 @op("any", profs=GENERAL, dict_mode="exact")
@@ -608,20 +601,17 @@ def _prod(vals):
     return p
 
 
-@op("sum", profs=ARITH + ("str", "chr", "lst"), dict_mode="exact")
+# (the two-argument forms sum(xs, f) / product(xs, f) exist but are documented nowhere: not asserted)
+@op("sum", profs=ARITH, dict_mode="exact")
 def _sum(c):
-    if c.prof in ARITH:
-        yield "sum(%s)" % c.S, (lambda: V(sum(c.xs))), ""
-    for fs, f in fam(NUMF, c.prof):
-        yield c.call("sum", c.S, fs), (lambda f=f: V(sum(f(x) for x in c.xs))), "mapped"
+    yield "sum(%s)" % c.S, (lambda: V(sum(c.xs))), ""
+    yield "%s then sum" % c.S, (lambda: V(sum(c.xs))), ""
 
 
-@op("product", profs=ARITH + ("str", "chr", "lst"), dict_mode="exact")
+@op("product", profs=ARITH, dict_mode="exact")
 def _product(c):
-    if c.prof in ARITH:
-        yield "product(%s)" % c.S, (lambda: V(_prod(c.xs))), ""
-    for fs, f in fam(NUMF, c.prof):
-        yield c.call("product", c.S, fs), (lambda f=f: V(_prod(f(x) for x in c.xs))), "mapped"
+    yield "product(%s)" % c.S, (lambda: V(_prod(c.xs))), ""
+    yield "%s then product" % c.S, (lambda: V(_prod(c.xs))), ""
 
 
 def _extreme(c, sign, cmp):
@@ -808,7 +798,7 @@ def _power(c):
 
 # ----- combinatorial streams
 
-@op("permutations", profs=GENERAL, maxlen=5)
+@op("permutations", profs=GENERAL, maxlen=6)
 def _permutations(c):
     yield "list(permutations(%s))" % c.S, (lambda: V([list(t) for t in itertools.permutations(c.xs)])), ""
 
@@ -918,19 +908,31 @@ def sort_inner(c):
     return c
 
 
-def erase(c, depth=99):
-    """forget the difference between list / string / vector / bytes down to `depth` levels"""
-    if not isinstance(c, dict) or depth <= 0:
-        return c
+def seq_elems(c):
+    """one level of elements of a canonical list / string / vector / bytes, else None"""
+    if not isinstance(c, dict):
+        return None
     if "s" in c:
-        return {"l": [{"s": ch} for ch in c["s"]]}
+        return [{"s": ch} for ch in c["s"]]
     if "b" in c:
-        return {"l": [{"i": str(b)} for b in bytes.fromhex(c["b"])]}
+        return [{"i": str(b)} for b in bytes.fromhex(c["b"])]
     if "v" in c:
-        return {"l": [erase(x, depth - 1) for x in c["v"]]}
+        return c["v"]
     if "l" in c:
-        return {"l": [erase(x, depth - 1) for x in c["l"]]}
-    return c
+        return c["l"]
+    return None
+
+
+def kind_equiv(a, b):
+    """equal up to the sequence kind (list / string / vector / bytes) of the value or of nested pieces"""
+    if a == b:
+        return True
+    ea, eb = seq_elems(a), seq_elems(b)
+    if ea is None or eb is None or len(ea) != len(eb):
+        return False
+    if "s" in a and "s" in b:
+        return False
+    return all(kind_equiv(x, y) for x, y in zip(ea, eb))
 
 
 def judge(exp, ev, c, dict_mode):
@@ -972,10 +974,10 @@ def judge(exp, ev, c, dict_mode):
         return (_aspect(g2, want), str(got)[:240], str(want)[:240], want)
     if exp[0] == "ve":
         want = to_canon(exp[1])
-        g2, w2 = erase(got, 1), erase(want, 1)
-        if c.kind == "dict":
-            g2, w2 = sort_top(g2), sort_top(w2)
-        if g2 == w2:
+        g2, w2 = seq_elems(got), seq_elems(want)
+        if c.kind == "dict" and g2 is not None:
+            g2, w2 = sorted(g2, key=_jk), sorted(w2, key=_jk)
+        if g2 is not None and g2 == w2:
             return None
         return ("value", str(got)[:240], str(want)[:240], want)
     want = to_canon(exp[1])
@@ -985,16 +987,13 @@ def judge(exp, ev, c, dict_mode):
             g2, w2 = sort_top(g2), sort_top(w2)
         elif dict_mode == "ms_inner":
             g2, w2 = sort_inner(g2), sort_inner(w2)
-        elif dict_mode == "ms_each":
-            # [null, collected]: the collected list in any order
-            g2, w2 = sort_inner(g2), sort_inner(w2)
     if g2 == w2:
         return None
     return (_aspect(g2, w2), str(got)[:240], str(want)[:240], want)
 
 
 def _aspect(got, want):
-    return "kind" if erase(got) == erase(want) else "value"
+    return "kind" if kind_equiv(got, want) else "value"
 
 
 def _short(exp):
@@ -1039,7 +1038,7 @@ for _o in OPS:
 
 def dict_len_cap(o):
     """order-dependent operations only get dict inputs of size <= 1"""
-    return 8 if o["dict_mode"] in ("exact", "ms1", "ms_inner", "ms_each", "groups", "sortdict") else 1
+    return 8 if o["dict_mode"] in ("exact", "ms1", "ms_inner", "groups", "sortdict") else 1
 
 
 def make_ctx(kind, prof, xs, ys, o1, o2, infix, r=None):
@@ -1124,7 +1123,7 @@ def run_batch(sh, w, batch, vio_count):
             continue
         res = judge(exp, ev, c, o["dict_mode"])
         if res is None:
-            if c.n >= 2:
+            if c.n >= 3 and core.h64(text) % 53 == 0:
                 sh.sample({"stmt": text, "observed": ev.get("v"), "expected": _short(exp)}, cap=4)
             continue
         aspect, got, want, want_c = res
